@@ -108,6 +108,7 @@ func VerifH_grow() {
 	res, perr := w.pk.Pick(balancer.PickInfo{FullMethodName: "/plain", Ctx: ctx})
 	verifGrowArmed = false
 	verifReach("after")
+	verifAssert(verifLocksFree(), "C06: Pick left a lock held (another pick had grown the pool in between)")
 	verifAssert(len(gb.scRefs) <= int(cp.MaxSize), "C03: pool above maxSize")
 	if perr == nil && verifGrowHooked {
 		// The call was placed although the pick gave other goroutines room in between (it released a
